@@ -319,6 +319,34 @@ def np_svd(A, full_matrices=True, compute_uv=True, hermitian=False):
             U[fr[l - len(trip)], l] = Sym.const(1)
             V[l, fc[l - len(trip)]] = Sym.const(1)
         return U, S, V
+    # rows with pairwise disjoint supports (every column holds at most one
+    # non-zero): A = D Q, D = row norms, Q = normalised rows; or the transpose
+    for transposed in (False, True):
+        B = A.T if transposed else A
+        mb, nb = B.shape
+        if all(sum(0 if _is_zero(B[i, j]) else 1 for i in range(mb)) <= 1 for j in range(nb)):
+            rows = [i for i in range(mb) if any(not _is_zero(B[i, j]) for j in range(nb))]
+            kb = min(mb, nb)
+            if len(rows) != kb:
+                continue                       # would need an orthonormal completion: not modelled
+            items = []
+            for i in rows:
+                nrm = Sym.lift(sum((Sym.lift(B[i, j]) * Sym.lift(B[i, j]) for j in range(nb)), Sym.const(0))).sqrt()
+                items.append((nrm, i))
+            items = _sorted_desc(items)
+            Ub = _zeros((mb, kb))
+            Vb = _zeros((kb, nb))
+            Sb = _np.empty(kb, dtype=object)
+            for l, (nrm, i) in enumerate(items):
+                e = _sign('us')
+                Ub[i, l] = e
+                Sb[l] = nrm
+                for j in range(nb):
+                    if not _is_zero(B[i, j]):
+                        Vb[l, j] = e * Sym.lift(B[i, j]) / nrm
+            if transposed:
+                return Vb.T.copy(), Sb, Ub.T.copy()
+            return Ub, Sb, Vb
     raise Unmodelled('svd of a matrix that is neither registered nor quasi-diagonal')
 
 
